@@ -90,7 +90,7 @@ func runC09(c *Ctx) {
 		mc.Take()
 
 		var mu sync.Mutex
-		issued := map[string]string{} // "sender counter" -> payload
+		issued := map[string]string{}    // "sender counter" -> payload
 		apiIssued := map[string]string{} // exact wire line of a call made through a command method -> "sender counter"
 		var issuedN int64
 		senderSeq := int64(0)
